@@ -1,9 +1,118 @@
-import Ivg.Model.Decoder
 import Ivg.Model.Arc
-import Ivg.Model.MdIcons
 import Ivg.Gen.Tie
 import Ivg.Obligations
-/-! # Property C06 — theorems (work in progress: tie obligations only so far) -/
+/-!
+# C06 — elliptical arcs (PARTIAL)
+
+Model: `Ivg/Model/Arc.lean` (`Renderer.AbsArcTo`, render/render.go:406–578, at float32/float64 with the ports of
+Go's `math.Sin/Cos/Acos` in `Ivg/Model/GoMath.lean`) and the `arc` case of `Renderer.step` (`RelArcTo`).
+
+Proved here, for every input:
+* a zero (or NaN) radius yields exactly one straight line to the endpoint MAPPED into pixel space;
+* every other arc is emitted as cubic segments only, at most 8 of them structurally, exactly `n` of them for the
+  computed segment count `n` when `0 ≤ n ≤ 8`, each produced by `arcSegment` for consecutive equal angle steps
+  starting at `θ₁` and ending at `θ₁ + Δθ·n/n`;
+* the relative form IS the absolute form at the pen-relative endpoint converted back to viewBox space.
+
+NOT proved (float analysis / trigonometry; covered by the bit-exact correspondence and the arc monitor only):
+that `n ≤ 4` (needs `|Δθ| ≤ 2π`, i.e. the range of the ported `acos`), that the last segment ends within
+rounding of the mapped endpoint, that segment ends lie on the (scaled-up) ellipse, and the sweep/large-arc
+selection.  At exact arithmetic the pen-relative endpoint identity is `unabs (pen + rel x) = unabs pen + x`
+(see `Ivg/Lemmas/GeomQ.lean`).
+-/
 namespace Ivg.Props.C06
+open Ivg Num Ren
+
+/-- **Zero radius.**  If not both radii are positive in absolute value (zero, or NaN), the arc is exactly one
+    `LineTo` to the endpoint mapped by the viewBox-to-pixel map. -/
+theorem arc_zero_radius (z : Renderer F32 F64) (rx ry rot : F32) (la sw : Bool) (x y : F32)
+    (h : ¬ (F64.ofInt 0 < (F64.ofF32 rx).abs ∧ F64.ofInt 0 < (F64.ofF32 ry).abs)) :
+    arcF32 z rx ry rot la sw x y = [.lineTo (z.absX x) (z.absY y)] := by
+  have h' : ¬ (Ren.f 0 < (F64.ofF32 rx).abs ∧ Ren.f 0 < (F64.ofF32 ry).abs) := h
+  unfold arcF32
+  simp only [h', not_false_eq_true, if_true]
+
+/-- a zero x-radius or y-radius satisfies the hypothesis of `arc_zero_radius` -/
+theorem zero_radius_hyp (rx ry : F32) (h : rx = ⟨0⟩ ∨ ry = ⟨0⟩ ∨ rx = ⟨0x80000000⟩ ∨ ry = ⟨0x80000000⟩) :
+    ¬ (F64.ofInt 0 < (F64.ofF32 rx).abs ∧ F64.ofInt 0 < (F64.ofF32 ry).abs) := by
+  have z1 : ¬ (F64.ofInt 0 < (F64.ofF32 ⟨0⟩).abs) := by decide
+  have z2 : ¬ (F64.ofInt 0 < (F64.ofF32 ⟨0x80000000⟩).abs) := by decide
+  rcases h with rfl | rfl | rfl | rfl <;> intro ⟨h1, h2⟩ <;> first | exact z1 h1 | exact z1 h2 | exact z2 h1 | exact z2 h2
+
+/-- the segments of a proper arc are cubics, and there are at most `fuel` of them -/
+theorem arcSegments_cubes (z : Renderer F32 F64) (cx cy t1 dt rx ry c s : F64) (n : Int) :
+    ∀ (fuel : Nat) (i : Int),
+      (arcSegments z cx cy t1 dt rx ry c s n fuel i).length ≤ fuel ∧
+      ∀ op ∈ arcSegments z cx cy t1 dt rx ry c s n fuel i, ∃ a b c' d e f, op = .cubeTo a b c' d e f := by
+  intro fuel
+  induction fuel with
+  | zero => intro i; simp [arcSegments]
+  | succ fuel ih =>
+    intro i
+    unfold arcSegments
+    split
+    · obtain ⟨h1, h2⟩ := ih (i + 1)
+      refine ⟨by simp; omega, ?_⟩
+      intro op hop
+      simp only [List.mem_cons] at hop
+      rcases hop with rfl | hop
+      · exact ⟨_, _, _, _, _, _, rfl⟩
+      · exact h2 op hop
+    · simp
+
+/-- exactly `n − i` segments when that fits the fuel -/
+theorem arcSegments_length (z : Renderer F32 F64) (cx cy t1 dt rx ry c s : F64) (n : Int) :
+    ∀ (fuel : Nat) (i : Int), i ≤ n → n - i ≤ fuel →
+      ((arcSegments z cx cy t1 dt rx ry c s n fuel i).length : Int) = n - i := by
+  intro fuel
+  induction fuel with
+  | zero => intro i h1 h2; simp [arcSegments]; omega
+  | succ fuel ih =>
+    intro i h1 h2
+    unfold arcSegments
+    split
+    · rename_i hlt
+      have := ih (i + 1) (by omega) (by omega)
+      simp only [List.length_cons]
+      omega
+    · simp; omega
+
+/-- **Shape of every arc**: one mapped line (degenerate radii) or cubic segments only, at most 8. -/
+theorem arc_shape (z : Renderer F32 F64) (rx ry rot : F32) (la sw : Bool) (x y : F32) :
+    arcF32 z rx ry rot la sw x y = [.lineTo (z.absX x) (z.absY y)] ∨
+    ((arcF32 z rx ry rot la sw x y).length ≤ 8 ∧
+      ∀ op ∈ arcF32 z rx ry rot la sw x y, ∃ a b c d e f, op = .cubeTo a b c d e f) := by
+  by_cases h : (F64.ofInt 0 < (F64.ofF32 rx).abs ∧ F64.ofInt 0 < (F64.ofF32 ry).abs)
+  · right
+    have h' : (Ren.f 0 < (F64.ofF32 rx).abs ∧ Ren.f 0 < (F64.ofF32 ry).abs) := h
+    unfold arcF32
+    simp only [h', not_true_eq_false, if_false]
+    exact arcSegments_cubes _ _ _ _ _ _ _ _ _ _ 8 0
+  · left; exact arc_zero_radius z rx ry rot la sw x y h
+
+/-- **The relative form measures its endpoint from the pen**: `RelArcTo` is `AbsArcTo` at the pen-relative
+    endpoint converted back to viewBox space (for any arc implementation and number types). -/
+theorem rel_is_abs {α β : Type} [Arith α] [Arith β] [Wide α β] (arc : ArcFn α β) (posInf : α) (z : Renderer α β)
+    (rx ry rot : α) (la sw : Bool) (x y : α) :
+    z.step arc posInf (.arc true rx ry rot la sw x y) =
+      z.step arc posInf (.arc false rx ry rot la sw (z.unabsX (z.relVecX x)) (z.unabsY (z.relVecY y))) := by
+  simp [Renderer.step]
+
+/-- a disabled path draws nothing for an arc -/
+theorem arc_disabled_silent {α β : Type} [Arith α] [Arith β] [Wide α β] (arc : ArcFn α β) (posInf : α)
+    (z : Renderer α β) (h : z.disabled = true) (rel : Bool) (rx ry rot : α) (la sw : Bool) (x y : α) :
+    (z.step arc posInf (.arc rel rx ry rot la sw x y)).2 = [] := by
+  simp [Renderer.step, h]
+
+/-- non-vacuity: a zero x-radius at 128 px with the default viewBox draws the line to (84, 84) -/
+example :
+    let z : Renderer F32 F64 := ((Renderer.zero : Renderer F32 F64).setRasterizer ⟨0, 0, 128, 128⟩).reset F32.posInf defaultViewBox defaultPalette
+    arcF32 z ⟨0⟩ ⟨0x40a00000⟩ ⟨0⟩ false false ⟨0x41200000⟩ ⟨0x41200000⟩ = [.lineTo (z.absX ⟨0x41200000⟩) (z.absY ⟨0x41200000⟩)] ∧
+      z.absX ⟨0x41200000⟩ = ⟨0x42a80000⟩ := by
+  intro z
+  exact ⟨arc_zero_radius z _ _ _ _ _ _ _ (zero_radius_hyp _ _ (Or.inl rfl)), by decide +kernel⟩
+
 end Ivg.Props.C06
-#obligations C06 [Ivg.Gen.Tie.drawOps_tie, Ivg.Gen.Tie.magic_tie, Ivg.Gen.Tie.errorStrings_tie]
+#obligations C06 [Ivg.Props.C06.arc_zero_radius, Ivg.Props.C06.zero_radius_hyp, Ivg.Props.C06.arc_shape,
+  Ivg.Props.C06.arcSegments_cubes, Ivg.Props.C06.arcSegments_length, Ivg.Props.C06.rel_is_abs,
+  Ivg.Props.C06.arc_disabled_silent, Ivg.Gen.Tie.renderer_fields_tie]
